@@ -215,6 +215,23 @@ CLAIMED = {
        "known_findings.json. Gaussian marginalisation (restriction = sub-mean / sub-covariance) is cited. Masked selections are represented in place "
        "with an uninterpreted count as their visible extent.",
   technique="contract-based deductive verification: AST-extracted real functions, elementwise tensor domain with a NaN flag model and predicate-valued reductions, modular callee contracts, z3 + sympy CAS"),
+ "C07": dict(
+  category="other",
+  text="Proof tier (counted): the clauses a contract can state -- reported variance = covariance diagonal clamped at settings.min_variance (so >= the "
+       "configured minimum), stddev its non-negative root, confidence_region = mean -+ 2 stddev (MultivariateNormal.{variance, stddev, "
+       "confidence_region}); every noise-like parameter registered with a constraint reads as constraint.transform(raw) inside [lower, upper] for "
+       "all raw values (the site contract on the noise sites found in gpytorch/ on this run); HeteroskedasticNoise.forward = diag(constraint."
+       "transform(noise-model mean[, indices])) with the noise model restored to its mode; the Gaussian marginal adds exactly that noise to the "
+       "diagonal. Bounded tier (not counted, and the ONLY tier for the PSD clauses): symmetry / smallest eigenvalue of Gram matrices of 33 kernel "
+       "classes on duplicated and nearly coincident rows over three lengthscale regimes; prior / posterior / variational / marginal covariances PSD, "
+       "prior - posterior PSD, nested training sets never increase a variance, variance floors under non-default min_variance, noise >= bounds.",
+  design_ref="DESIGN.md section 5, C07",
+  note="Positive semi-definiteness is a theorem of analysis about values (Bochner, Schur complement), not a postcondition a solver can discharge "
+       "from the code: it is checked numerically only (float64, tolerance 1e-8*scale on Gram matrices, 1e-6*scale on model covariances, 1e-2 on "
+       "the CG path). FixedNoiseGaussianLikelihood's settings.min_fixed_noise floor is documented for construction only and is not demanded of "
+       "later assignments (no constraint is involved). Known findings (kinked kernels on the requires_grad path, HammingIMQ batching, KISS + "
+       "fixed-noise fantasies) are listed in known_findings.json.",
+  technique="contract-based deductive verification for the variance-floor and noise-bound clauses (AST-extracted real functions, z3); numerical enumeration (bounded) for the PSD clauses"),
 }
 REASON_NOT_BUILT = "contracts for this property are not built yet in this revision (see DESIGN.md section 9 build order); not claimed until its obligations are discharged by the checker"
 
